@@ -1,11 +1,12 @@
 package main
 
-// The modelled source text (see table.go for the normalisation).  A handler body equal to one of
-// handlerTexts has the shape Pages/Pager.v models: [0] the five Search(key > lastKey) handlers,
-// [1] parentpb.ListChildren.  Regenerate with C15_TABLE_DEBUG=1 after re-modelling a changed handler.
+import "strings"
 
-var handlerTexts = []string{
-	`{
+// The modelled source text (see table.go for the normalisation).  A handler body equal to one of
+// handlerTexts has the shape Pages/Pager.v models: [0] the Search(key > lastKey) handlers,
+// [1] parentpb.ListChildren, [2] = [0] paging over slices.Clone of the listing (electricpb.ListModes).  Regenerate with C15_TABLE_DEBUG=1 after re-modelling a changed handler.
+
+const handlerText0 = `{
 	pageToken := &types.PageToken{}
 	if err := decodePageToken(request.PageToken, pageToken); err != nil {
 		return nil, err
@@ -18,6 +19,10 @@ var handlerTexts = []string{
 	pageSize := capPageSize(int(request.GetPageSize()))
 
 	L := R.model.LIST()
+
+	sort.Slice(L, func(i, j int) bool {
+		return L[i].K < L[j].K
+	})
 	nextIndex := 0
 	if lastKey != "" {
 		nextIndex = sort.Search(len(L), func(i int) bool {
@@ -51,7 +56,10 @@ var handlerTexts = []string{
 	}
 
 	return result, nil
-}`,
+}`
+
+var handlerTexts = []string{
+	handlerText0,
 	`{
 	pageToken := &types.PageToken{}
 	if err := decodePageToken(request.PageToken, pageToken); err != nil {
@@ -106,6 +114,7 @@ var handlerTexts = []string{
 
 	return result, nil
 }`,
+	strings.Replace(handlerText0, "L := R.model.LIST()", "L := slices.Clone(R.model.LIST())", 1),
 }
 
 const wasteHandlerText = `{
